@@ -12,6 +12,7 @@ import ServlinVerif.Driver.C06
 import ServlinVerif.Driver.Req
 import ServlinVerif.Driver.C07
 import ServlinVerif.Driver.C16
+import ServlinVerif.Model.Pool
 /-
   Line-protocol driver.  Input line:  <suite> TAB <arg>... TAB => TAB <observed>
   Output line: <model outcome> TAB <oracle verdict>
@@ -45,6 +46,19 @@ def handleLine (line : String) : String :=
     | "c14n" => viaSpec (C14.handleNum args) obs
     | "c01" => Req.handleC01 args obs
     | "c01s" => Req.handleSeq args obs
+    | "c04p" =>
+      -- the handler pool: `n` panicking handlers on a pool of `n` threads, two requests of other connections queued behind them;
+      -- the pool model (`Pool.scenario`) says how many handler calls complete
+      match args with
+      | [nS] =>
+        let n := nS.toNat?.getD 0
+        let calls := (Pool.scenario true n).getD 0
+        let model := s!"a={",".intercalate (List.replicate n "500")} q=200 u=200 files=0 calls={calls}"
+        let fails := (if (obs.splitOn " ").any (· == "q=none") || (obs.splitOn " ").any (· == "u=none") then ["request-queued-behind-a-panic-not-answered"] else []) ++
+          (if (obs.splitOn " ").any (· == "files=0") then [] else ["temp-file-left-behind"]) ++
+          (if obs == model then [] else ["differs-from-model"])
+        model ++ "\t" ++ (if fails.isEmpty then "ok" else "FAIL:" ++ ",".intercalate fails ++ ":")
+      | _ => "bad-case\tFAIL:bad-case"
     | "c01n" =>
       -- a server without the timer thread: late, split and kept-alive requests are served as usual
       let model := "late=200 split=200 keepalive=200+200"
